@@ -55,6 +55,9 @@ mod xml;
 #[cfg(not(feature = "crc32c"))]
 mod crc32;
 
+#[cfg(e57_verif)]
+mod verif_trace;
+
 // Public types
 pub use self::blob::Blob;
 pub use self::bounds::CartesianBounds;
